@@ -190,7 +190,8 @@ theorem inv_lrem (c : Ctx) (db : Db) (k : Bytes) (n : Int) (v : Bytes) (h : db.I
 /-! ### a command applied to a key of another type fails with WRONGTYPE and changes nothing -/
 
 theorem wrongtype_inert_on_list (c : Ctx) (db : Db) (k : Bytes) (l : List Bytes) (x : Option Int) (i : Nat)
-    (h : db.live c.now k = some { val := .list l, exp := x, id := i }) (v f : Bytes) (d : Int) :
+    (h : db.live c.now k = some { val := .list l, exp := x, id := i }) (v f : Bytes) (d : Int)
+    (hv : (v.length : Int) ≤ hugeAlloc) :
     (cmdGet c db k = R.ok db wrongType) ∧ (cmdAppend c db k v = R.ok db wrongType) ∧
     (cmdIncrBy c db k d = R.ok db wrongType) ∧ (cmdStrlen c db k = R.ok db wrongType) ∧
     (cmdHSet c db k [(f, v)] false false = R.ok db wrongType) ∧ (cmdHGet c db k f = R.ok db wrongType) ∧
@@ -200,7 +201,9 @@ theorem wrongtype_inert_on_list (c : Ctx) (db : Db) (k : Bytes) (l : List Bytes)
     (cmdGetRange c db k 0 1 = R.ok db wrongType) ∧ (cmdGetDel c db k = R.ok db wrongType) := by
   unfold cmdGet cmdAppend setKey cmdIncrBy cmdStrlen cmdHSet cmdHGet cmdHDel cmdHIncrBy cmdSAdd cmdSRem cmdSCard
     cmdSetRange cmdGetRange cmdGetDel hashOf setOf
-  simp [h, R.ok]
+  have h1 : ¬ ((0 : Int) > hugeAlloc) := by unfold hugeAlloc; omega
+  have h2 : ¬ (hugeAlloc < (v.length : Int)) := by omega
+  simp [h, R.ok, h1, h2]
 
 theorem wrongtype_inert_on_string (c : Ctx) (db : Db) (k : Bytes) (b : Bytes) (xp : Option Int) (i : Nat)
     (h : db.live c.now k = some { val := .str b, exp := xp, id := i }) (v f : Bytes) (d : Int) (lft x : Bool) :
